@@ -109,6 +109,12 @@ func buildOverlay(extra map[string][]byte) (map[string][]byte, []string) {
 		pkgs[filepath.Dir(rel)] = true
 		return nil
 	})
+	// model of the Badger library: replaces every non-test file of the module's root package
+	if model, err := os.ReadFile(filepath.Join(harnessDir, "_badgermodel", "badger.go")); err == nil {
+		for virt, content := range badgerOverlay(model) {
+			ov[virt] = content
+		}
+	}
 	for k, v := range extra {
 		ov[k] = v
 	}
@@ -118,6 +124,27 @@ func buildOverlay(extra map[string][]byte) (map[string][]byte, []string) {
 	}
 	sort.Strings(list)
 	return ov, list
+}
+
+const badgerModDir = "/root/go/pkg/mod/github.com/dgraph-io/badger/v3@v3.2103.2"
+
+// badgerOverlay maps the model over the real package: one file carries the model, all others become empty stubs.
+func badgerOverlay(model []byte) map[string][]byte {
+	out := map[string][]byte{}
+	files, _ := filepath.Glob(filepath.Join(badgerModDir, "*.go"))
+	first := true
+	for _, f := range files {
+		if strings.HasSuffix(f, "_test.go") {
+			continue
+		}
+		if first {
+			out[f] = model
+			first = false
+		} else {
+			out[f] = []byte("package badger\n")
+		}
+	}
+	return out
 }
 
 func loadProgram(ov map[string][]byte, patterns []string) (*ssa.Program, []*packages.Package) {
@@ -135,7 +162,7 @@ func loadProgram(ov map[string][]byte, patterns []string) (*ssa.Program, []*pack
 	nerr := 0
 	packages.Visit(pkgs, nil, func(p *packages.Package) {
 		for _, e := range p.Errors {
-			if strings.HasPrefix(p.PkgPath, modPath) {
+			if strings.HasPrefix(p.PkgPath, modPath) || strings.Contains(p.PkgPath, "badger") {
 				fmt.Fprintf(os.Stderr, "load error: %s: %v\n", p.PkgPath, e)
 				nerr++
 			}
@@ -276,6 +303,7 @@ type pathOutcome struct {
 }
 
 func runPath(in *Interp, fn *ssa.Function) (out pathOutcome) {
+	defer in.killThreads()
 	defer func() {
 		if r := recover(); r != nil {
 			switch x := r.(type) {
